@@ -27,6 +27,7 @@ CONSTANTS
   MaxRecs, MaxFaults, MaxEnv,
   ForeignAt,   \* "none" | "ref": an object controlled by a foreign owner, annotated with a name in Names, is referenced by the XR
                \* | "name" (Pipeline only): the function asks for a fixed metadata.name that a foreign-controlled object has
+  RenderFails, \* PT: the environment may make templates fail to render
   FailKinds    \* ways the pipeline can fail (Pipeline mode): subset of {"fnerror","fatal","reqloop","badinput","nocreds"}
 
 Ids == 1..MaxObjs
@@ -39,6 +40,7 @@ VARIABLES
   store,    \* id -> [st, ctrl, rname]   st: "none" | "live" | "deleting"; ctrl: "xr" | "foreign" | "nobody"
   refs,     \* set of ids in the XR's spec.resourceRefs
   want,     \* names the environment currently wants (function output / template names)
+  rfail,    \* PT: templates that currently fail to render (a Required from-XR patch whose source field is missing)
   nextId,   \* next id GenerateName will produce
   pc,
   obs,      \* name -> id observed / associated in this reconcile (None if not)
@@ -54,8 +56,8 @@ VARIABLES
   bad,      \* ghost: names of violated step properties (kept as state so that TLC reports them as invariants)
   hist
 
-vars == <<store, refs, want, nextId, pc, obs, des, wantR, todo, recs, faults, envs, pfail, startS, startR, gcd, quiet, steady, bad, hist>>
-view == <<store, refs, want, nextId, pc, obs, des, wantR, todo, recs, faults, envs, pfail, startS, startR, gcd, quiet, steady, bad>>
+vars == <<store, refs, want, rfail, nextId, pc, obs, des, wantR, todo, recs, faults, envs, pfail, startS, startR, gcd, quiet, steady, bad, hist>>
+view == <<store, refs, want, rfail, nextId, pc, obs, des, wantR, todo, recs, faults, envs, pfail, startS, startR, gcd, quiet, steady, bad>>
 
 Absent == [st |-> "none", ctrl |-> "nobody", rname |-> "-"]
 Exists(o) == store[o].st # "none"
@@ -81,7 +83,7 @@ Init ==
                ELSE IF ForeignAt = "name" /\ o = FixedId THEN [st |-> "live", ctrl |-> "foreign", rname |-> "-"]
                ELSE Absent]
   /\ refs = (IF ForeignAt = "ref" THEN {1} ELSE {})
-  /\ want \in Wants
+  /\ want \in Wants /\ rfail = {}
   /\ nextId = (IF ForeignAt = "ref" THEN 2 ELSE 1)
   /\ pc = "idle" /\ obs = [n \in Names |-> None] /\ des = [n \in Names |-> None] /\ wantR = {}
   /\ todo = <<>> /\ recs = 0 /\ faults = 0 /\ envs = 0 /\ pfail = ""
@@ -96,17 +98,21 @@ EnvUnch == /\ envs' = envs + 1 /\ quiet' = FALSE /\ steady' = FALSE
            /\ UNCHANGED <<refs, nextId, pc, obs, des, wantR, todo, recs, faults, pfail, startS, startR, gcd, bad>>
 ChangeWant == /\ EnvOK /\ \E w \in Wants : w # want /\ want' = w
                  /\ Log([t |-> "env", k |-> "want", o |-> "", f |-> "", names |-> w])
-              /\ UNCHANGED store /\ EnvUnch
+              /\ UNCHANGED <<store, rfail>> /\ EnvUnch
+\* PT: the XR field a template's Required patch reads (dis)appears: the template cannot be rendered for now
+ChangeRFail == /\ Mode = "PT" /\ RenderFails /\ EnvOK /\ \E r \in SUBSET Names : r # rfail /\ rfail' = r
+                  /\ Log([t |-> "env", k |-> "rfail", o |-> "", f |-> "", names |-> r])
+               /\ UNCHANGED <<store, want>> /\ EnvUnch
 \* a user (or a provider's finalizer) deletes a composed resource: it is gone, or stays with a deletionTimestamp
 UserDelete(o) == /\ EnvOK /\ Live(o) /\ store[o].ctrl = "xr"
                  /\ \E s \in {"deleting", "none"} :
                       /\ store' = [store EXCEPT ![o] = IF s = "none" THEN Absent ELSE [@ EXCEPT !.st = "deleting"]]
                       /\ Log(H("env", IF s = "none" THEN "remove" ELSE "markdeleted", IdStr(o), ""))
-                 /\ UNCHANGED want /\ EnvUnch
+                 /\ UNCHANGED <<want, rfail>> /\ EnvUnch
 Finalize(o) == /\ EnvOK /\ store[o].st = "deleting"
                /\ store' = [store EXCEPT ![o] = Absent] /\ Log(H("env", "finalize", IdStr(o), ""))
-               /\ UNCHANGED want /\ EnvUnch
-Env == ChangeWant \/ \E o \in Ids : UserDelete(o) \/ Finalize(o)
+               /\ UNCHANGED <<want, rfail>> /\ EnvUnch
+Env == ChangeWant \/ ChangeRFail \/ \E o \in Ids : UserDelete(o) \/ Finalize(o)
 
 ----------------------------------------------------------------------------
 (* Reconcile plumbing.                                                     *)
@@ -130,7 +136,7 @@ NoEffect(k, o) == FailC(k, o) \/ Dies(k, o)
 ErrC == pc' = "status" /\ todo' = <<>> /\ pfail' = "err" /\ Stay /\ UNCHANGED <<hist, faults>>
 
 \* step-property ghosts
-Steady == steady /\ quiet
+Steady == steady /\ quiet /\ (rfail \cap want = {})   \* (an unrendered template means the composed state does not match the desired state)
 NoteWrite(o) ==   \* a write reached composed resource o
   bad' = bad \cup (IF pfail # "" THEN {"FailSafe"} ELSE {})
                \cup (IF store[o].ctrl = "foreign" THEN {"ForeignTouched"} ELSE {})
@@ -147,7 +153,7 @@ Start == /\ pc = "idle" /\ recs < MaxRecs
                /\ pfail' = "" /\ startS' = store /\ startR' = refs /\ gcd' = {}
                /\ quiet' = TRUE /\ UNCHANGED <<recs, steady>>
             \/ /\ (Fail("get", "xr") \/ Dies("get", "xr")) /\ UNCHANGED <<obs, des, wantR, pfail, startS, startR, gcd>>
-         /\ UNCHANGED <<store, refs, want, nextId, envs, bad>>
+         /\ UNCHANGED <<store, refs, want, rfail, nextId, envs, bad>>
 
 \* ---- observation (Pipeline: ObserveComposedResources; PT: AssociateTemplates reads each reference)
 \* A referenced resource that is gone is skipped; one controlled by someone else is ignored (Pipeline)
@@ -159,9 +165,9 @@ Observe == /\ pc = "observe" /\ todo # <<>>
                      THEN obs' = [obs EXCEPT ![store[o].rname] = o] ELSE UNCHANGED obs)
                  /\ todo' = Tail(todo) /\ UNCHANGED <<pc, pfail>>
               \/ /\ NoEffect("get", IdStr(o)) /\ UNCHANGED obs
-           /\ UNCHANGED <<store, refs, want, nextId, des, wantR, envs, startS, startR, gcd, bad>>
+           /\ UNCHANGED <<store, refs, want, rfail, nextId, des, wantR, envs, startS, startR, gcd, bad>>
 ObserveDone == /\ pc = "observe" /\ todo = <<>> /\ pc' = "desire"
-               /\ UNCHANGED <<store, refs, want, nextId, obs, des, wantR, todo, recs, faults, envs, pfail, startS, startR, gcd, quiet, steady, bad, hist>>
+               /\ UNCHANGED <<store, refs, want, rfail, nextId, obs, des, wantR, todo, recs, faults, envs, pfail, startS, startR, gcd, quiet, steady, bad, hist>>
 
 \* ---- what is desired in this reconcile
 \* Pipeline: run the functions (the environment decides the outcome). A failing pipeline ends Compose
@@ -177,7 +183,7 @@ Desire == /\ pc = "desire"
                      /\ pfail' = fk
                 /\ wantR' = want /\ UNCHANGED <<des, todo>>
                 /\ pc' = "status" /\ Stay      \* the reconciler still writes the XR's status (Synced=False)
-          /\ UNCHANGED <<store, refs, want, nextId, obs, recs, envs, startS, startR, gcd, bad>>
+          /\ UNCHANGED <<store, refs, want, rfail, nextId, obs, recs, envs, startS, startR, gcd, bad>>
 
 \* ---- allocate names (GenerateName = a Get that must answer NotFound)
 NewId == IF nextId <= MaxObjs THEN nextId ELSE None
@@ -194,14 +200,14 @@ Alloc == /\ pc = "alloc" /\ todo # <<>>
                     \/ /\ Mode = "PT" /\ Faulted("get", IdStr(NewId), "error") /\ nextId' = nextId + 1
                        /\ todo' = Tail(todo) /\ quiet' = FALSE /\ UNCHANGED <<des, pc, pfail, recs, steady>>
                     \/ /\ Mode = "PT" /\ Dies("get", IdStr(NewId)) /\ nextId' = nextId + 1 /\ UNCHANGED des
-         /\ UNCHANGED <<store, refs, want, obs, wantR, envs, startS, startR, gcd, bad>>
+         /\ UNCHANGED <<store, refs, want, rfail, obs, wantR, envs, startS, startR, gcd, bad>>
 GcList == SetToSeq({obs[n] : n \in {m \in Names : obs[m] # None /\ m \notin wantR}})
 PipeAllocExit == /\ Mode = "Pipeline" /\ pc = "alloc" /\ todo = <<>>
                  /\ pc' = "gcstrip" /\ todo' = GcList
-                 /\ UNCHANGED <<store, refs, want, nextId, obs, des, wantR, recs, faults, envs, pfail, startS, startR, gcd, quiet, steady, bad, hist>>
+                 /\ UNCHANGED <<store, refs, want, rfail, nextId, obs, des, wantR, recs, faults, envs, pfail, startS, startR, gcd, quiet, steady, bad, hist>>
 \* PT allocates after garbage collection and then persists the references
 PtAllocExit == /\ Mode = "PT" /\ pc = "alloc" /\ todo = <<>> /\ pc' = "refs"
-               /\ UNCHANGED <<store, refs, want, nextId, obs, des, wantR, todo, recs, faults, envs, pfail, startS, startR, gcd, quiet, steady, bad, hist>>
+               /\ UNCHANGED <<store, refs, want, rfail, nextId, obs, des, wantR, todo, recs, faults, envs, pfail, startS, startR, gcd, quiet, steady, bad, hist>>
 
 \* ---- garbage collection: strip the composition labels (Update), then Delete
 Gone(o) == [store EXCEPT ![o] = Absent]
@@ -213,7 +219,7 @@ GcStrip == /\ pc = "gcstrip" /\ todo # <<>>
                    \/ /\ NoEffect("update", IdStr(o)) /\ UNCHANGED <<store, bad, gcd>>
                    \/ /\ Crash("update", IdStr(o)) /\ UNCHANGED <<store, gcd>>
                       /\ (IF Exists(o) THEN NoteDelete(o) ELSE UNCHANGED bad)
-           /\ UNCHANGED <<refs, want, nextId, obs, des, wantR, envs, startS, startR>>
+           /\ UNCHANGED <<refs, want, rfail, nextId, obs, des, wantR, envs, startS, startR>>
 GcDelete == /\ pc = "gcdelete"
             /\ LET o == todo[1] IN
                \/ /\ Ok("delete", IdStr(o)) /\ store' = Gone(o) /\ todo' = Tail(todo) /\ pc' = "gcstrip" /\ Stay /\ UNCHANGED pfail
@@ -223,25 +229,25 @@ GcDelete == /\ pc = "gcdelete"
                \/ /\ Crash("delete", IdStr(o)) /\ store' = Gone(o)
                   /\ gcd' = (IF Exists(o) THEN gcd \cup {o} ELSE gcd)
                   /\ (IF Exists(o) THEN NoteDelete(o) ELSE UNCHANGED bad)
-            /\ UNCHANGED <<refs, want, nextId, obs, des, wantR, envs, startS, startR>>
+            /\ UNCHANGED <<refs, want, rfail, nextId, obs, des, wantR, envs, startS, startR>>
 GcDone == /\ pc = "gcstrip" /\ todo = <<>>
           /\ pc' = (IF Mode = "PT" THEN "alloc" ELSE "refs")
           /\ todo' = (IF Mode = "PT" THEN NamesSeq({n \in wantR : obs[n] = None}) ELSE <<>>)
-          /\ UNCHANGED <<store, refs, want, nextId, obs, des, wantR, recs, faults, envs, pfail, startS, startR, gcd, quiet, steady, bad, hist>>
+          /\ UNCHANGED <<store, refs, want, rfail, nextId, obs, des, wantR, recs, faults, envs, pfail, startS, startR, gcd, quiet, steady, bad, hist>>
 \* PT: the associator collects referenced resources whose template vanished while it reads the references;
 \* modelled after the reads, before names are allocated (no write happens in between)
 PtGc == /\ pc = "ptgc" /\ pc' = "gcstrip" /\ todo' = GcList
-        /\ UNCHANGED <<store, refs, want, nextId, obs, des, wantR, recs, faults, envs, pfail, startS, startR, gcd, quiet, steady, bad, hist>>
+        /\ UNCHANGED <<store, refs, want, rfail, nextId, obs, des, wantR, recs, faults, envs, pfail, startS, startR, gcd, quiet, steady, bad, hist>>
 
 \* ---- persist the references: all desired ids (Pipeline: SSA patch of spec.resourceRefs; PT: Update of the XR)
 NewRefs == {des[n] : n \in wantR} \ {None}
 RefsVerb == IF Mode = "PT" THEN "update" ELSE "patch"
 PersistRefs == /\ pc = "refs"
-               /\ \/ /\ Ok(RefsVerb, "xr") /\ refs' = NewRefs /\ pc' = "apply" /\ todo' = NamesSeq({n \in wantR : des[n] # None}) /\ Stay /\ UNCHANGED pfail
+               /\ \/ /\ Ok(RefsVerb, "xr") /\ refs' = NewRefs /\ pc' = "apply" /\ todo' = NamesSeq({n \in wantR : des[n] # None /\ n \notin rfail}) /\ Stay /\ UNCHANGED pfail
                      /\ bad' = bad \cup (IF Steady /\ NewRefs # refs THEN {"Quiescent"} ELSE {})
                   \/ /\ NoEffect(RefsVerb, "xr") /\ UNCHANGED <<refs, bad>>
                   \/ /\ Crash(RefsVerb, "xr") /\ refs' = NewRefs /\ UNCHANGED bad
-               /\ UNCHANGED <<store, want, nextId, obs, des, wantR, envs, startS, startR, gcd>>
+               /\ UNCHANGED <<store, want, rfail, nextId, obs, des, wantR, envs, startS, startR, gcd>>
 
 \* ---- apply every desired resource. Pipeline: one server-side apply, refused as Invalid when another controller
 \* owns the object (the resource is reported unsynced, composition continues).  PT: Get, then Create or Patch,
@@ -257,7 +263,7 @@ ApplyGet == /\ Mode = "PT" /\ pc = "apply" /\ todo # <<>>
                   /\ (IF Exists(o) /\ ~Mine(o) THEN pc' = "status" /\ todo' = <<>> /\ pfail' = "err" /\ Stay
                       ELSE pc' = "applyw" /\ UNCHANGED <<todo, pfail>> /\ Stay)
                \/ NoEffect("get", IdStr(o))
-            /\ UNCHANGED <<store, refs, want, nextId, obs, des, wantR, envs, startS, startR, gcd, bad>>
+            /\ UNCHANGED <<store, refs, want, rfail, nextId, obs, des, wantR, envs, startS, startR, gcd, bad>>
 ApplyW == /\ ((Mode = "PT" /\ pc = "applyw") \/ (Mode = "Pipeline" /\ pc = "apply" /\ todo # <<>>))
           /\ LET n == todo[1]
                  o == des[n] IN
@@ -268,9 +274,9 @@ ApplyW == /\ ((Mode = "PT" /\ pc = "applyw") \/ (Mode = "Pipeline" /\ pc = "appl
                   \/ /\ NoEffect(ApplyVerb(o), IdStr(o)) /\ UNCHANGED <<store, bad>>
                   \/ /\ Crash(ApplyVerb(o), IdStr(o)) /\ store' = Applied(n)
                      /\ (IF Changes(n) THEN NoteWrite(o) ELSE UNCHANGED bad)
-          /\ UNCHANGED <<refs, want, nextId, obs, des, wantR, envs, startS, startR, gcd>>
+          /\ UNCHANGED <<refs, want, rfail, nextId, obs, des, wantR, envs, startS, startR, gcd>>
 ApplyDone == /\ pc = "apply" /\ todo = <<>> /\ pc' = "xrstatus"
-             /\ UNCHANGED <<store, refs, want, nextId, obs, des, wantR, todo, recs, faults, envs, pfail, startS, startR, gcd, quiet, steady, bad, hist>>
+             /\ UNCHANGED <<store, refs, want, rfail, nextId, obs, des, wantR, todo, recs, faults, envs, pfail, startS, startR, gcd, quiet, steady, bad, hist>>
 
 \* ---- the composer's last write to the XR (Pipeline: SSA status patch; PT: merge patch of the XR),
 \* then the reconciler's Status().Update.  Neither touches composed resources or references.
@@ -279,13 +285,13 @@ XrStatus == /\ pc = "xrstatus"
             /\ \/ /\ Ok(XrVerb, "xr") /\ pc' = "status" /\ UNCHANGED <<todo, pfail>> /\ Stay
                \/ NoEffect(XrVerb, "xr")
                \/ Crash(XrVerb, "xr")
-            /\ UNCHANGED <<store, refs, want, nextId, obs, des, wantR, envs, startS, startR, gcd, bad>>
+            /\ UNCHANGED <<store, refs, want, rfail, nextId, obs, des, wantR, envs, startS, startR, gcd, bad>>
 Status == /\ pc = "status"
           /\ \/ /\ Ok("update-status", "xr") /\ End(pfail = "")
              \/ Fail("update-status", "xr")
              \/ Dies("update-status", "xr")
              \/ Crash("update-status", "xr")
-          /\ UNCHANGED <<store, refs, want, nextId, obs, des, wantR, envs, pfail, startS, startR, gcd, bad>>
+          /\ UNCHANGED <<store, refs, want, rfail, nextId, obs, des, wantR, envs, pfail, startS, startR, gcd, bad>>
 
 Rec == Start \/ Observe \/ ObserveDone \/ Desire \/ Alloc \/ PipeAllocExit \/ PtAllocExit \/ PtGc \/ GcStrip \/ GcDelete \/ GcDone
        \/ PersistRefs \/ ApplyGet \/ ApplyW \/ ApplyDone \/ XrStatus \/ Status
